@@ -112,6 +112,21 @@ func c11Set(res *explore.Result, contents []string, verbose bool) {
 		}
 		return fs, fl
 	}, "alt"})
+	if len(contents) >= 2 {
+		variants = append(variants, variant{"NewFileSet(slice with spare capacity...) + AddFile(last), then the caller appends another file to its own slice", func() (*parsley.FileSet, []*text.File) {
+			fl := mk()
+			slice := make([]parsley.File, 0, 8)
+			for _, f := range fl[:len(fl)-1] {
+				slice = append(slice, f)
+			}
+			fs := parsley.NewFileSet(slice...)
+			fs.AddFile(fl[len(fl)-1])
+			// what the caller does with its own slice afterwards must not reach into the set
+			slice = append(slice, text.NewFile("decoy", []byte("zz\nzz\nzz")))
+			_ = parsley.NewFileSet(slice...)
+			return fs, fl
+		}, "asc"})
+	}
 	for _, v := range variants {
 		fs, files := v.build()
 		res.Add("states", 1)
